@@ -810,3 +810,153 @@ func c25Extras3(c *Ctx) {
 	}
 	c.Check(found, "R-ORDER", "tls.atLeastReader.Read", "the ErrUnexpectedEOF return found", w.Pos(fn.Pos()), "")
 }
+
+// c28Extras3: (a) verifyServerCertificate keeps parsed certificates in the positions of the raw ones (the log pairs
+// Chain[k].Raw with the k-th parsed certificate): no element of the loop is passed over; (b) the elliptic-curve
+// points recorded for the log come out of elliptic.Unmarshal for the negotiated curve (which knows each curve's
+// coordinate width), as they do for the key exchange itself.
+func c28Extras3(c *Ctx) {
+	w := c.W
+	if fn := w.Fn("(*z/tls.Conn).verifyServerCertificate"); fn != nil {
+		c.loopSkipCut("R-SCAN", fn, "no element of the certificate list is passed over: every iteration stores the parsed certificate or leaves the function",
+			func(in ssa.Instruction) bool {
+				cc := callCommon(in)
+				return cc != nil && strings.HasSuffix(calleeName(cc), "x509.ParseCertificate")
+			},
+			func(in ssa.Instruction) bool {
+				if st, ok := in.(*ssa.Store); ok {
+					if _, ok := st.Addr.(*ssa.IndexAddr); ok && typeStr(st.Val.Type()) == "*x509.Certificate" {
+						return true
+					}
+				}
+				return false
+			}, func(Fact) bool { return false })
+	} else {
+		c.Undecided("R-SCAN", "tls.Conn.verifyServerCertificate", "anchor", "-", "not found")
+	}
+	n := 0
+	for _, leaf := range []string{"nistParameters.x", "nistParameters.y"} {
+		for _, fw := range w.FieldWrites()[leaf] {
+			if fw.Kind != "store" || strings.HasSuffix(w.RelFile(fw.Fn.Pos()), "_test.go") {
+				continue
+			}
+			if strings.HasSuffix(FuncName(fw.Fn), "nistParameters).Clone") {
+				continue // copies the coordinates of an existing value
+			}
+			n++
+			c.Sites++
+			ok := false
+			src := Expr(fw.Val)
+			for v := range backClosure(fw.Val, nil) {
+				if ex, isEx := v.(*ssa.Extract); isEx {
+					if cl, isCall := ex.Tuple.(*ssa.Call); isCall {
+						switch calleeName(&cl.Call) {
+						case "crypto/elliptic.Unmarshal", "crypto/elliptic.GenerateKey":
+							ok = true
+						}
+						if cl.Call.IsInvoke() && (cl.Call.Method.Name() == "ScalarBaseMult" || cl.Call.Method.Name() == "ScalarMult") {
+							ok = true
+						}
+					}
+				}
+			}
+			c.Check(ok, "R-PROV", short(FuncName(fw.Fn)), fmt.Sprintf("%s (#%d) is a coordinate produced by crypto/elliptic (Unmarshal, GenerateKey or a scalar multiplication)", leaf, n), w.InstrPos(fw.In), src)
+		}
+	}
+	c.Check(n >= 4, "R-PROV", "z/tls", "writers of nistParameters coordinates enumerated", "-", fmt.Sprint(n))
+}
+
+// c29Extras3: when SNIExtension.WriteToConfig replaces the autopopulating SNI extension of a shared fingerprint by
+// one that carries the current ServerName, the replacement still autopopulates (the next handshake with another
+// ServerName must be able to replace it again).
+func c29Extras3(c *Ctx) {
+	w := c.W
+	fn := w.Fn("(*z/tls.SNIExtension).WriteToConfig")
+	if fn == nil {
+		c.Undecided("R-STATE", "tls.SNIExtension.WriteToConfig", "anchor", "-", "not found")
+		return
+	}
+	n := 0
+	for _, b := range fn.Blocks {
+		for _, in := range b.Instrs {
+			al, ok := in.(*ssa.Alloc)
+			if !ok || !al.Heap || typeStr(al.Type()) != "*tls.SNIExtension" {
+				continue
+			}
+			n++
+			c.Sites++
+			set := false
+			for _, r := range *al.Referrers() {
+				fa, ok := r.(*ssa.FieldAddr)
+				if !ok || fieldLeaf(fieldName(fa)) != "Autopopulate" {
+					continue
+				}
+				for _, r2 := range *fa.Referrers() {
+					if st, ok := r2.(*ssa.Store); ok {
+						if b, isB := boolConst(st.Val); isB && b {
+							set = true
+						}
+					}
+				}
+			}
+			c.Check(set, "R-STATE", "tls.SNIExtension.WriteToConfig", fmt.Sprintf("the SNI extension written back into the fingerprint (#%d) keeps Autopopulate set", n), w.InstrPos(in), "")
+		}
+	}
+	c.Check(n >= 1, "R-STATE", "tls.SNIExtension.WriteToConfig", "replacement extension found", w.Pos(fn.Pos()), fmt.Sprint(n))
+}
+
+// c30Extras3: in the ClientHello encoders nothing is appended to the extensions block after pre_shared_key
+// (RFC 8446 4.2.11: it MUST be the last extension; unmarshal, marshalWithoutBinders and updateBinders rely on it).
+func c30Extras3(c *Ctx) {
+	w := c.W
+	psk := int64(-1)
+	if p := w.Pkg("z/tls"); p != nil {
+		if k, ok := p.Types.Scope().Lookup("extensionPreSharedKey").(*types.Const); ok {
+			psk, _ = constant.Int64Val(k.Val())
+		}
+	}
+	n := 0
+	root := w.Fn("(*z/tls.clientHelloMsg).marshal")
+	var fns []*ssa.Function
+	var walk func(f *ssa.Function)
+	walk = func(f *ssa.Function) {
+		fns = append(fns, f)
+		for _, a := range f.AnonFuncs {
+			walk(a)
+		}
+	}
+	if root != nil {
+		walk(root)
+	}
+	isTypeCode := func(in ssa.Instruction) (int64, bool) {
+		cc := callCommon(in)
+		if cc == nil || !strings.HasSuffix(calleeName(cc), "cryptobyte.Builder).AddUint16") || len(cc.Args) != 2 {
+			return 0, false
+		}
+		k, ok := cc.Args[1].(*ssa.Const)
+		if !ok {
+			return 0, false
+		}
+		v, ok := constantInt64(k)
+		return v, ok
+	}
+	for _, fn := range fns {
+		for _, b := range fn.Blocks {
+			for _, in := range b.Instrs {
+				if v, ok := isTypeCode(in); ok && v == psk {
+					n++
+					c.Sites++
+					c.Cut(CutSpec{Rule: "R-ORDER", Fn: fn, Label: fmt.Sprintf("nothing is added to the extensions block after pre_shared_key (#%d)", n), StartAfter: in, MinTargets: -1,
+						Target: func(i2 ssa.Instruction, _ resolver) bool {
+							if _, ok := isTypeCode(i2); ok {
+								return true
+							}
+							cc := callCommon(i2)
+							return cc != nil && strings.Contains(calleeName(cc), "cryptobyte.Builder).Add") && !strings.HasSuffix(calleeName(cc), "AddUint16LengthPrefixed")
+						}, Cut: func(Fact) bool { return false }})
+				}
+			}
+		}
+	}
+	c.Check(n >= 1 && psk > 0, "R-ORDER", "tls.clientHelloMsg.marshal", "the pre_shared_key block found", "-", fmt.Sprint(n))
+}
